@@ -106,7 +106,7 @@ API_TIERS = {"quick": dict(cap=2500, shards=4, suffix=""), "thorough": dict(cap=
 API_FAMILY = {"bus": ("MC_BusApi.tla", "R_BusApi_", "api-replay", "Trace_BusApi"),
               "chan": ("MC_ChanApi.tla", "R_ChanApi", "chan-replay", "Trace_ChanApi"),
               "lst": ("MC_ListenerApi.tla", "R_ListenerApi", "listener-replay", "Trace_ListenerApi")}
-FAMILY_CONFIGS = {"chan": [""], "lst": ["", "_two", "_svc"]}
+FAMILY_CONFIGS = {"chan": ["", "_probe"], "lst": ["", "_two", "_svc"]}
 
 
 def api_model(prop, tier, seed, verdict, cov, family="bus"):
